@@ -2,6 +2,7 @@ import Hm.Response
 import Hm.ReqSys
 import Hm.C02
 import Hm.Coding
+import Hm.Inflate
 
 def hexDigit (n : Nat) : Char := if n < 10 then Char.ofNat (48 + n) else Char.ofNat (87 + n)
 def hex (bs : Bytes) : String := String.ofList (bs.flatMap fun b => [hexDigit (b.toNat / 16), hexDigit (b.toNat % 16)])
@@ -167,6 +168,9 @@ def step (line : String) : String :=
       | some out => s!"OK {hex out} | h={showHeaders r.1}"
       | none => s!"ERR | h={showHeaders r.1}"
     | _, _, _ => "bad-op"
+  | ["GZ", b] => match unhex b with | some bs => (match gunzip bs with | some o => "OK " ++ hex o | none => "ERR") | none => "bad-op"
+  | ["FL", b] => match unhex b with | some bs => (match inflateRaw bs with | some o => "OK " ++ hex o | none => "ERR") | none => "bad-op"
+  | ["ZL", b] => match unhex b with | some bs => (match zlibDecode bs with | some o => "OK " ++ hex o | none => "ERR") | none => "bad-op"
   | _ => "bad-op"
 
 partial def loop (h : IO.FS.Stream) : IO Unit := do
